@@ -1642,6 +1642,20 @@ static void shutdown_phase(struct session *s)
 	int clean = !reset_fired && !A->n_term_wr && !B->n_term_rd;
 	if (s->ended) return;
 	if (mode == SM_FREE_DRAINED && sock && fionread(A->fd) > 0) { mode = s->shut_mode = SM_SHUTWR_DRAINED; vh_stat("free_downgraded_unread_input"); }
+	if (clean && !wm_mode && (mode == SM_SHUTWR_DRAINED || mode == SM_CLOSE_NOTIFY || mode == SM_FREE_DRAINED) && all_drained(A) &&
+	    !A->freed && !B->n_term_rd && (B->top->enabled & EV_READ) && (A->top->enabled & EV_WRITE) && vh_chance(&s->rng, 1, 3)) {
+		/* the reader pauses, the writer sends its last bytes and shuts down right behind them: the tail and the
+		 * shutdown become readable in one and the same pass when the reader resumes (seed C17-1) */
+		size_t n = 1 + (size_t)vh_below(&s->rng, 3000);
+		int i;
+		bufferevent_disable(B->top, EV_READ);
+		A->total = A->written + n;
+		app_write(A, n);
+		for (i = 0; i < 200 && !s->ended && !all_drained(A); i++) settle(s, "late-tail");
+		if (s->ended) return;
+		s->b_disabled_at_shut = 1;
+		vh_stat("late_tail_written_while_reader_paused");
+	}
 	if (mode == SM_SHUTWR_DRAINED || mode == SM_CLOSE_NOTIFY || mode == SM_FREE_DRAINED) {
 		if (!all_drained(A)) { vh_stat("shutdown_not_drained"); clean = 0; }
 		s->strict = clean;
